@@ -4,7 +4,8 @@
 (* whose painting exercises every path-building branch of                  *)
 (* html/document/draw.go: sizes that may be zero, border styles, rounded   *)
 (* corners, backgrounds (colour, gradient, tiled with repeat / space /     *)
-(* round), overflow clipping, opacity, transforms, outlines.               *)
+(* round, degenerate radial gradients), overflow clipping, opacity,      *)
+(* transforms, outlines, a text drawn with two fonts (fallback).            *)
 (* There is no behaviour here: the module only enumerates the scenarios    *)
 (* that the protocol checker Backend!Proto is run on.                      *)
 (***************************************************************************)
@@ -12,7 +13,8 @@ EXTENDS Integers, TLC, Json
 
 VARIABLE box
 Box == [w : {0, 20}, h : {0, 20}, border : {"none", "solid", "dashed", "dotted", "double", "groove"}, bw : {1, 3}, radius : {0, 4},
-        bg : {"none", "color", "gradient", "tile-repeat", "tile-space", "tile-space-one", "tile-round", "radial"},
+        bg : {"none", "color", "gradient", "tile-repeat", "tile-space", "tile-space-one", "tile-round", "radial", "radial-side", "radial-corner", "radial-zero"},
+        txt : {"plain", "fallback"},
         ovf : BOOLEAN, opac : BOOLEAN, tf : BOOLEAN, outline : BOOLEAN]
 Init == box \in Box
 Next == UNCHANGED box
